@@ -313,7 +313,8 @@ pub fn replay(_e: &Engine, case: &Value, obs: &mut Obs) -> Result<(), Fail> {
 
 fn color_string() -> BoxedStrategy<String> {
     prop_oneof![
-        // well-formed
+        // well-formed; a small palette first, so that two colour options often hold the same colour (in either spelling)
+        3 => prop_oneof![Just("#1e1e2e"), Just("#1E1E2EFF"), Just("#000000"), Just("#ffffff"), Just("#FFFFFFFF"), Just("#00000000"), Just("#ff000080"), Just("1e1e2e")].prop_map(|s| s.to_string()),
         3 => any::<[u8; 3]>().prop_map(|c| format!("#{:02x}{:02x}{:02x}", c[0], c[1], c[2])),
         3 => any::<[u8; 4]>().prop_map(|c| format!("#{:02X}{:02x}{:02X}{:02x}", c[0], c[1], c[2], c[3])),
         1 => any::<[u8; 3]>().prop_map(|c| format!("{:02X}{:02X}{:02X}", c[0], c[1], c[2])),
